@@ -681,6 +681,59 @@ pub fn run(ctx: &Ctx) -> Finish {
             }
         });
     }
+    // long operands (33 and 65 terms: beyond any block size a vectorised or chunked implementation would
+    // use) against each other and against small ones, every impl
+    {
+        let mut longp: std::collections::BTreeMap<Kind, Vec<Opd>> = std::collections::BTreeMap::new();
+        for (f, _) in super::c01::long_functions() {
+            let main_len = match &f {
+                FnRep::Lin { terms, .. } => terms.len(),
+                FnRep::Quad { entries, .. } => entries.len(),
+                FnRep::Poly { terms } => terms.len(),
+                _ => 0,
+            };
+            if main_len != 33 && main_len != 65 {
+                continue;
+            }
+            if has_dup_pos(&f) {
+                continue;
+            }
+            let k = match &f {
+                FnRep::Lin { .. } => Kind::Lin,
+                FnRep::Quad { .. } => Kind::Quad,
+                _ => Kind::Pol,
+            };
+            let o = match k {
+                Kind::Lin => Opd::Lin(f.clone()),
+                Kind::Quad => Opd::Quad(f.clone()),
+                _ => Opd::Pol(f.clone()),
+            };
+            longp.entry(k).or_default().push(o);
+            longp.entry(Kind::Fun).or_default().push(Opd::Fun(f));
+        }
+        longp.insert(Kind::Num, vec![Opd::Num(-0.5)]);
+        longp.insert(Kind::Dv, vec![Opd::Dv(4)]);
+        longp.insert(Kind::Par, vec![Opd::Par(4)]);
+        ctx.note("long_operands", json!(longp.iter().map(|(k, v)| (format!("{k:?}"), v.len())).collect::<std::collections::BTreeMap<_, _>>()));
+        let jobs: Vec<(usize, usize)> = table.iter().enumerate().flat_map(|(k, im)| (0..longp.get(&im.lk).map_or(0, |v| v.len())).map(move |i| (k, i))).collect();
+        ctx.par(jobs.len(), |l, j| {
+            let (k, i) = jobs[j];
+            let im = &table[k];
+            let a = &longp[&im.lk][i];
+            match im.rk {
+                None => {
+                    l.states += 1;
+                    check_case(l, &table, &Case::Op { name: im.name.to_string(), a: a.clone(), b: None });
+                }
+                Some(rk) => {
+                    for b in longp.get(&rk).into_iter().flatten() {
+                        l.states += 1;
+                        check_case(l, &table, &Case::Op { name: im.name.to_string(), a: a.clone(), b: Some(b.clone()) });
+                    }
+                }
+            }
+        });
+    }
     // term iterators of the operands themselves
     for k in [Kind::Lin, Kind::Quad, Kind::Pol, Kind::Fun] {
         let p = &pools[&k];
@@ -706,7 +759,7 @@ pub fn run(ctx: &Ctx) -> Finish {
     let thinned = ctx.notes.lock().unwrap().keys().any(|k| k.starts_with("thinned/"));
     Finish {
         level: "model_checking",
-        rule: "every operator impl of the API (Add/Sub/Mul/Neg over f64, &DecisionVariable, &Parameter, Linear, Quadratic, Polynomial, Function; Sum/Product) x every ordered pair of operand values from closed pools (all representations: unsorted, repeated, lower/upper triangle, explicit zeros, absent linear part), and from a pool with id extremes (0, 2^32+3 next to 3, u64::MAX); result read through public fields and compared with exact polynomial arithmetic; non-trivial = both operands non-zero".into(),
+        rule: "every operator impl of the API (Add/Sub/Mul/Neg over f64, &DecisionVariable, &Parameter, Linear, Quadratic, Polynomial, Function; Sum/Product) x every ordered pair of operand values from closed pools (all representations: unsorted, repeated, lower/upper triangle, explicit zeros, absent linear part), from a pool with id extremes (0, 2^32+3 next to 3, u64::MAX) and from a pool of long operands (33 / 65 terms); result read through public fields and compared with exact polynomial arithmetic; non-trivial = both operands non-zero".into(),
         bounds: json!({"ids": [1,2,7], "parameter_ids": [10,2], "numbers": [0,-1,0.5,3], "terms_max": ctx.tier.pick(2,3), "fold_len_max": 3,
             "pair_cap_per_impl": cap, "note": "where a per-impl pair grid exceeds the cap the larger pool is traversed with a fixed stride (recorded under thinned/*); the run is then exhaustive over the stated sub-grid only"}),
         exhaustive: !thinned,
